@@ -95,8 +95,14 @@ class UpdateReferences:
           found = True
       elif isinstance(elem, gfapy.OrientedLine):
         if elem.line is oldref:
-          if hasattr(oldref, "is_complement") and \
-                            oldref.is_complement(newref):
+          # the placeholder link created by a path has no overlap of its
+          # own when the path has none: compare the ends, and the overlaps
+          # only if both are specified (as _search_link does)
+          if newref is not None and \
+                hasattr(oldref, "is_compatible_complement") and \
+                            oldref.is_compatible_complement(
+                                newref.oriented_from, newref.oriented_to,
+                                newref.overlap):
             elem.orient = gfapy.invert(elem.orient)
           elem.line = newref
           found = True
